@@ -191,3 +191,138 @@ Proof.
     apply list_eqb_eq in E1, E2. subst. exfalso. apply Hin. left. reflexivity.
   - rewrite IH1 by assumption. apply IH2. eapply Permutation_NoDup; [apply Permutation_map; exact HP1|exact Hnd].
 Qed.
+
+(* ================================================================ completeness of the read loop *)
+(* A response head that ends within the size limit is always found - whatever the segmentation, as long as the transport
+   delivers data (no end of stream or error before the blank line) - so a conforming response is never refused by the
+   read loop. *)
+Definition is_chunk (ev : tev) : bool := match ev with TChunk _ => true | _ => false end.
+
+Lemma find_end_within : forall p q i e, find_end (p ++ q) i = Some e -> e <= i + zlen p -> find_end p i = Some e.
+Proof.
+  induction p as [|a p IH]; intros q i e H He.
+  - cbn [app] in H. pose proof (find_end_range _ _ _ H). unfold zlen in He; cbn in He. lia.
+  - cbn [app find_end] in H. cbn [find_end].
+    destruct p as [|b [|c [|d p']]].
+    + (* one byte in p: the end would need i + 4 <= e <= i + 1 *)
+      exfalso. cbn [app] in H.
+      destruct q as [|b [|c [|d q']]]; try discriminate.
+      destruct ((a =? cCR) && (b =? cLF) && (c =? cCR) && (d =? cLF)).
+      * inversion H; subst. unfold zlen in He; cbn in He. lia.
+      * pose proof (find_end_range _ _ _ H). unfold zlen in He; cbn in He. lia.
+    + exfalso. cbn [app] in H.
+      destruct q as [|c [|d q']]; try discriminate.
+      destruct ((a =? cCR) && (b =? cLF) && (c =? cCR) && (d =? cLF)).
+      * inversion H; subst. unfold zlen in He; cbn in He. lia.
+      * pose proof (find_end_range _ _ _ H). unfold zlen in He; cbn in He. lia.
+    + exfalso. cbn [app] in H.
+      destruct q as [|d q']; try discriminate.
+      destruct ((a =? cCR) && (b =? cLF) && (c =? cCR) && (d =? cLF)).
+      * inversion H; subst. unfold zlen in He; cbn in He. lia.
+      * pose proof (find_end_range _ _ _ H). unfold zlen in He; cbn in He. lia.
+    + cbn [app] in H.
+      destruct ((a =? cCR) && (b =? cLF) && (c =? cCR) && (d =? cLF)); [exact H|].
+      apply (IH q (i + 1) e H). unfold zlen in *; cbn [length] in *. lia.
+Qed.
+
+Theorem read_head_complete fuel : forall n buf cap tr e,
+  zlen buf <= cap -> 0 < cap -> forallb is_chunk tr = true ->
+  find_end buf 0 = None -> find_end (buf ++ flat tr) 0 = Some e -> e <= hs_limit -> hs_limit <= cap * 2 ^ Z.of_nat n ->
+  2 * zlen tr + 2 * Z.of_nat n + (if zlen buf =? cap then 0 else 1) < Z.of_nat fuel ->
+  exists buf1 tr1, read_head fuel buf cap tr = HDone buf1 e tr1.
+Proof.
+  induction fuel as [|f IH]; intros n buf cap tr e Hc Hpos Hch Hnone Hend He Hn Hfuel.
+  { pose proof (zlen_nonneg tr). destruct (zlen buf =? cap); lia. }
+  cbn [read_head].
+  destruct ((zlen buf =? cap) && (hs_limit <=? cap)) eqn:Efull.
+  { (* full at the limit: the end lies within the buffer, it would have been found *)
+    exfalso. apply andb_true_iff in Efull as [E1 E2].
+    rewrite (find_end_within buf (flat tr) 0 e Hend) in Hnone by lia. discriminate. }
+  set (cap1 := if zlen buf =? cap then 2 * cap else cap).
+  assert (Hgrow : (zlen buf =? cap) = true -> (1 <= n)%nat /\ hs_limit <= cap1 * 2 ^ Z.of_nat (n - 1)).
+  { intros E. rewrite E in Efull. cbn [andb] in Efull.
+    destruct n as [|n']; [cbn in Hn; lia|]. split; [lia|].
+    unfold cap1. rewrite E. replace (S n' - 1)%nat with n' by lia.
+    rewrite Nat2Z.inj_succ, Z.pow_succ_r in Hn by lia. lia. }
+  assert (Hc1 : zlen buf <= cap1) by (unfold cap1; destruct (zlen buf =? cap); lia).
+  destruct tr as [|ev r].
+  { exfalso. cbn [flat] in Hend. rewrite app_nil_r in Hend. congruence. }
+  cbn [forallb] in Hch. apply andb_true_iff in Hch as [Hev Hr].
+  destruct ev as [d| |]; try discriminate. cbn [tread flat] in *.
+  assert (Hlen : zlen (TChunk d :: r) = 1 + zlen r) by (unfold zlen; cbn [length]; lia).
+  rewrite Hlen in Hfuel.
+  destruct (zlen d <=? cap1 - zlen buf) eqn:Efit.
+  - (* the whole chunk fits *)
+    destruct (find_end (buf ++ d) 0) as [e0|] eqn:Ef.
+    + pose proof (find_end_prefix _ (flat r) _ _ Ef) as Hp. rewrite <- app_assoc in Hp. rewrite Hp in Hend.
+      inversion Hend; subst. eauto.
+    + change (0 =? 0) with true. cbv iota.
+      assert (Hp1 : 0 < cap1) by (unfold cap1; destruct (zlen buf =? cap); lia).
+      destruct (zlen buf =? cap) eqn:E.
+      * destruct (Hgrow eq_refl) as [Hn1 Hn2].
+        apply (IH (n - 1)%nat (buf ++ d) cap1 r e);
+          [rewrite zlen_app; lia|exact Hp1|exact Hr|exact Ef|rewrite <- app_assoc; exact Hend|exact He|exact Hn2|].
+        pose proof (zlen_nonneg r). destruct (zlen (buf ++ d) =? cap1); lia.
+      * apply (IH n (buf ++ d) cap1 r e);
+          [rewrite zlen_app; lia|exact Hp1|exact Hr|exact Ef|rewrite <- app_assoc; exact Hend|exact He|exact Hn|].
+        pose proof (zlen_nonneg r). destruct (zlen (buf ++ d) =? cap1); lia.
+  - (* the buffer takes a part of the chunk and is full *)
+    set (room := cap1 - zlen buf) in *.
+    assert (Hroom : 0 <= room < zlen d) by (unfold room; lia).
+    assert (Hfull1 : zlen (buf ++ ztake room d) = cap1) by (rewrite zlen_app, zlen_ztake by lia; unfold room; lia).
+    assert (Hstream : (buf ++ ztake room d) ++ flat (TChunk (zdrop room d) :: r) = buf ++ d ++ flat r).
+    { cbn [flat]. rewrite <- !app_assoc. f_equal. rewrite app_assoc, ztake_zdrop_split. reflexivity. }
+    destruct (find_end (buf ++ ztake room d) 0) as [e0|] eqn:Ef.
+    + pose proof (find_end_prefix _ (flat (TChunk (zdrop room d) :: r)) _ _ Ef) as Hp. rewrite Hstream, Hend in Hp.
+      inversion Hp; subst. eauto.
+    + change (0 =? 0) with true. cbv iota.
+      assert (Hlen1 : zlen (TChunk (zdrop room d) :: r) = 1 + zlen r) by (unfold zlen; cbn [length]; lia).
+      assert (Hp1 : 0 < cap1) by (unfold cap1; destruct (zlen buf =? cap); lia).
+      destruct (zlen buf =? cap) eqn:E.
+      * destruct (Hgrow eq_refl) as [Hn1 Hn2].
+        apply (IH (n - 1)%nat (buf ++ ztake room d) cap1 (TChunk (zdrop room d) :: r) e);
+          [lia|exact Hp1|cbn [forallb is_chunk]; exact Hr|exact Ef|rewrite Hstream; exact Hend|exact He|exact Hn2|].
+        rewrite Hlen1, Hfull1, Z.eqb_refl. pose proof (zlen_nonneg r). lia.
+      * apply (IH n (buf ++ ztake room d) cap1 (TChunk (zdrop room d) :: r) e);
+          [lia|exact Hp1|cbn [forallb is_chunk]; exact Hr|exact Ef|rewrite Hstream; exact Hend|exact He|exact Hn|].
+        rewrite Hlen1, Hfull1, Z.eqb_refl. pose proof (zlen_nonneg r). lia.
+Qed.
+
+Lemma handshake_done s tr expected buf e tr2 :
+  read_head hs_fuel [] (Z.max hs_buffer_size (h_cap s)) tr = HDone buf e tr2 -> hs_verdict (ztake e buf) expected = 0 ->
+  snd (fst (handshake s tr expected)) = 0.
+Proof.
+  intros Hr Hv. unfold handshake. cbv zeta. generalize (read_cap hs_fuel [] (Z.max hs_buffer_size (h_cap s)) tr). intros rc.
+  rewrite Hr, Hv. reflexivity.
+Qed.
+
+(* A conforming response is accepted: for every segmentation into at most 90 data segments of a response whose head ends within
+   64 KiB and is acceptable, on a stream in any state, the handshake ends active with exactly the bytes behind the blank
+   line handed to the frame decoder or still in the transport. *)
+Theorem handshake_accepts s tr expected e :
+  forallb is_chunk tr = true -> (length tr <= 90)%nat ->
+  find_end (flat tr) 0 = Some e -> e <= hs_limit -> hs_verdict (ztake e (flat tr)) expected = 0 ->
+  exists s1 tr1, handshake s tr expected = (s1, 0, tr1) /\ h_state s1 = 1 /\ h_src s1 ++ flat tr1 = zdrop e (flat tr).
+Proof.
+  intros Hch Hlen Hend He Hv.
+  set (cap0 := Z.max hs_buffer_size (h_cap s)).
+  assert (P1 : zlen (@nil Z) <= cap0) by (unfold cap0, hs_buffer_size; change (zlen (@nil Z)) with 0; lia).
+  assert (P2 : 0 < cap0) by (unfold cap0, hs_buffer_size; lia).
+  assert (P4 : find_end (@nil Z) 0 = None) by reflexivity.
+  assert (P7 : hs_limit <= cap0 * 2 ^ Z.of_nat 6).
+  { change (2 ^ Z.of_nat 6) with 64. unfold cap0, hs_buffer_size, hs_limit. lia. }
+  assert (P8 : 2 * zlen tr + 2 * Z.of_nat 6 + (if zlen (@nil Z) =? cap0 then 0 else 1) < Z.of_nat hs_fuel).
+  { assert (Hf200 : Z.of_nat hs_fuel = 200) by reflexivity. rewrite Hf200.
+    assert (zlen tr <= 90) by (unfold zlen; lia). change (Z.of_nat 6) with 6.
+    destruct (zlen (@nil Z) =? cap0); lia. }
+  destruct (read_head_complete hs_fuel 6 [] cap0 tr e P1 P2 Hch P4 Hend He P7 P8) as (buf1 & tr2 & Hrh).
+  destruct (read_head_conserves _ _ _ _ _ _ _ Hrh P1) as (A1 & B1 & C1).
+  cbn [app] in A1. pose proof (find_end_range _ _ _ B1) as R.
+  assert (Hhead : ztake e (flat tr) = ztake e buf1) by (rewrite <- A1; apply ztake_app_l; lia).
+  rewrite Hhead in Hv.
+  pose proof (handshake_done s tr expected buf1 e tr2 Hrh Hv) as Hcls.
+  destruct (handshake s tr expected) as [[s1 cls] tr1] eqn:Eh. cbn [fst snd] in Hcls. subst cls.
+  pose proof (handshake_spec _ _ _ _ _ _ Eh) as (A & B & C).
+  exists s1, tr1. split; [reflexivity|]. split; [apply A; reflexivity|].
+  destruct (C eq_refl) as (e' & E1 & _ & E3). rewrite Hend in E1. inversion E1; subst. exact E3.
+Qed.
